@@ -118,7 +118,8 @@ def decorate(g, rnd, actions=True, plain=False):
         # `%token NAME -1`: an alias of the end marker (no grammar symbol of its own)
         decls.insert(rnd.randint(0, len(decls)), ('token', None, [(('id', rnd.choice(['ENDMARK', 'EOF_', 'AAEND'])), -1, None)]))
     startname = nts[g['start']]['name']
-    decls.insert(rnd.randint(0, len(decls)), ('start', startname))
+    if not (g.get('implicit_start') and startname == 'start'):
+        decls.insert(rnd.randint(0, len(decls)), ('start', startname))
     groups = []
     for idx, r in enumerate(g['rules']):
         alt = dict(rhs=[tsym[s[1]] if s[0] == 't' else ('id', nts[s[1]]['name']) for s in r['rhs']],
